@@ -23,10 +23,10 @@ def make_callbacks(mod, log):
         'id': mk('id', lambda v: v),
         'AtoZ': mk('AtoZ', lambda v: mod.Z() if is_obj(v, 'A') else v),
         'Acopy': mk('Acopy', lambda v: tagged(mod.A(v.x)) if is_obj(v, 'A') else v),
-        'Bswap': mk('Bswap', lambda v: mod.B(v.r, v.l) if is_obj(v, 'B') else v),
+        'Bswap': mk('Bswap', lambda v: mod.B(v._r, v.l) if is_obj(v, 'B') else v),
         'Achild': mk('Achild', lambda v: v.x if is_obj(v, 'A') else v),
         'Zleaf': mk('Zleaf', lambda v: None if is_obj(v, 'Z') else v),
-        'Blist': mk('Blist', lambda v: [v.l, v.r] if is_obj(v, 'B') else v),
+        'Blist': mk('Blist', lambda v: [v.l, v._r] if is_obj(v, 'B') else v),
     }
 
 
